@@ -60,7 +60,7 @@ def adagrid(split_ty):
                     split_strategy=split_ty, mbi_args='obj:dict'),
         requires=req, sqrt='nan',
         pure={'downward_closure': 'seq:obj'},
-        ieee_zero_division_assumed_away=(283, 327),
+        ieee_zero_division_assumed_away=('rho_step_1', 'rho_step_3'),
         local_types={'k': 'int', 'cl': 'obj:', 'mu': 'obj:', 'y': 'obj:', 'Q': 'obj:', 'Q1': 'obj:', 'Q2': 'obj:', 'I': 'obj:', 'est': 'obj:'},
         loops={
             # outer loop over clique sizes: everything of size < k has been measured (at most) once
